@@ -52,6 +52,13 @@ structure Input where
   world : List Store
   backend : String         -- annotation: "mem" (instrumented store) | "dir" (real x509TrustStore)
   format : String          -- annotation: "jws" | "cose"
+  kind : String            -- annotation: "oci" (Verify) | "blob" (VerifyBlob; the blob document's
+                           -- statements are selected by name: encoded as `scopes := [name]`, `repo := name`)
+  history : List String    -- MUST NOT MATTER: the verifications the SAME verifier instance (and the same
+                           -- trust store object) performed before this one - other scheme, other chain,
+                           -- other statement, the same statement name in the other document kind, the
+                           -- same store names under a world that has changed since, this very
+                           -- verification. The model is stateless: `run` never reads this field.
   deriving Repr, FromJson, ToJson
 
 /-- one `GetCertificates` call seen by the trust store -/
